@@ -31,10 +31,10 @@ COND = {"maximum_iterations": "MaxIterationsStoppingCondition",
         "maximum_statement_executions": "MaxStatementExecutionsStoppingCondition"}
 
 
-def judge(ctx, key, spec, res):
+def judge(ctx, key, spec, res, combined=None):
     alg, field, limit, module, extra = key
     data = {"spec": spec}
-    base = f"C17|{alg}|{field}"
+    base = f"C17|{alg}|{field}" + (f"[with:{combined}]" if combined else "")
     if res["rc"] in ("RAISED", "CRASHED", "HUNG"):
         ctx.violation(f"{base}|run-{res['rc'].lower()}", f"{key}: {res['error']}", data, rank=limit)
         return
@@ -84,6 +84,18 @@ def run(ctx):
                         spec = {"module": module, "algorithm": alg, "seed": 1 + ctx.seed % 3,
                                 "stopping": {field: v}, "observe_iterations": True, "extra": extra}
                         cells.append(((alg, field, v, module, tuple(sorted(extra.items()))), spec, "0"))
+    # two budgets at once: each configured budget must be honoured whichever else is configured
+    pairs = [{"maximum_test_executions": 5, "maximum_statement_executions": 400},
+             {"maximum_statement_executions": 20, "maximum_test_executions": 1000},
+             {"maximum_iterations": 3, "maximum_test_executions": 1000},
+             {"maximum_test_executions": 8, "maximum_iterations": 100},
+             {"maximum_iterations": 2, "maximum_statement_executions": 100000}]
+    for module in modules[:1]:
+        for alg in ALGORITHMS:
+            for pair in pairs:
+                spec = {"module": module, "algorithm": alg, "seed": 1 + ctx.seed % 3,
+                        "stopping": dict(pair), "observe_iterations": True, "extra": {}}
+                cells.append(((alg, "+".join(pair), tuple(pair.values()), module, ()), spec, "0"))
     results = grid.run_grid(cells, workers=ctx.workers)
     for (key, spec, _hs) in cells:
         res = results[key]
@@ -93,7 +105,11 @@ def run(ctx):
         ctx.distinct("outcomes", (ends, res["executions"], res["rc"]))
         if ends >= 1:
             ctx.count("cells_with_iterations")
-        judge(ctx, key, spec, res)
+        if len(spec["stopping"]) == 1:
+            judge(ctx, key, spec, res)
+        else:
+            for field, limit in spec["stopping"].items():
+                judge(ctx, (key[0], field, limit, key[3], key[4]), spec, res, combined=key[1])
         ctx.sample({"cell": list(key[:4]), "rc": res["rc"], "iterations": ends,
                     "executions": res["executions"], "statements": res["statements"]}, every=17)
     ctx.require(ctx.col.counters.get("cells_with_iterations", 0) > len(cells) // 3,
@@ -109,6 +125,7 @@ def run(ctx):
 def replay(ctx, data):
     spec = data["spec"]
     res = grid.run_cell(spec)
-    field, limit = next(iter(spec["stopping"].items()))
-    judge(ctx, (spec["algorithm"], field, limit, spec["module"], ()), spec, res)
+    combined = "+".join(spec["stopping"]) if len(spec["stopping"]) > 1 else None
+    for field, limit in spec["stopping"].items():
+        judge(ctx, (spec["algorithm"], field, limit, spec["module"], ()), spec, res, combined=combined)
     print({k: res[k] for k in ("rc", "error", "executions", "statements")}, res["boundaries"])
